@@ -37,8 +37,16 @@ def _model_values(m, ob):
     return out
 
 
+CONFIGS = {
+    "default": {},
+    "nombqi": {"smt.mbqi": False},
+    "nombqi-noauto": {"smt.mbqi": False, "auto_config": False},
+}
+
+
 def _check(args):
-    idx, timeout_ms, seed = args
+    idx, timeout_ms, seed = args[:3]
+    cfg = args[3] if len(args) > 3 else "default"
     ob = _OBLS[idx]
     t0 = time.time()
     g = z3.simplify(ob.goal)
@@ -48,6 +56,8 @@ def _check(args):
     s.set("timeout", timeout_ms)
     if seed:
         s.set("random_seed", seed)
+    for k, v in CONFIGS[cfg].items():
+        s.set(k, v)
     for a in _AXIOMS:
         s.add(a)
     for a in ob.assumptions:
@@ -56,7 +66,7 @@ def _check(args):
     r = s.check()
     dt = time.time() - t0
     if r == z3.unsat:
-        return idx, "unsat", "z3-5.1", dt, None
+        return idx, "unsat", "z3-5.1" + ("" if cfg == "default" and not seed else f"[{cfg},seed={seed}]"), dt, None
     if r == z3.sat:
         return idx, "sat", "z3-5.1", dt, _model_values(s.model(), ob)
     # retry with a different strategy before giving up: split the goal's top-level conjunction
@@ -127,13 +137,16 @@ def discharge(obligations, axioms, timeout_ms=20000, procs=None, covers=None, cr
         for idx, status, backend, dt, extra in pool.imap_unordered(
                 _check, [(i, timeout_ms, 0) for i in range(len(obligations))], chunksize=1):
             results[idx] = {"status": status, "backend": backend, "time": dt, "extra": extra}
-        # one retry with another seed and a longer budget for unknowns
+        # portfolio retry for unknowns: seeds x quantifier configurations, all in parallel; E-matching
+        # proofs of nested-quantifier VCs vary a lot with the seed, so the first answer wins
         unk = [i for i, r in enumerate(results) if r["status"] == "unknown"]
         if unk:
-            for idx, status, backend, dt, extra in pool.imap_unordered(
-                    _check, [(i, timeout_ms * 3, 7) for i in unk], chunksize=1):
-                if status != "unknown":
-                    results[idx] = {"status": status, "backend": backend + "(retry)", "time": dt, "extra": extra}
+            tasks = [(i, timeout_ms * 2, seed, cfg) for i in unk for seed in (1, 2, 3, 4)
+                     for cfg in ("default", "nombqi", "nombqi-noauto")]
+            for idx, status, backend, dt, extra in pool.imap_unordered(_check, tasks, chunksize=1):
+                if status != "unknown" and results[idx]["status"] == "unknown":
+                    results[idx] = {"status": status, "backend": backend, "time": results[idx]["time"] + dt,
+                                    "extra": extra}
         unk = [i for i, r in enumerate(results) if r["status"] == "unknown"]
         todo = []
         if cross:
